@@ -897,6 +897,12 @@ let run_ejsonschema payload =
      | DFuel -> L [A "out-of-fuel"])
   | _ -> failwith "ejsonschema payload"
 
+(* ---- uidparse: EntityUID.UnmarshalCedar (Impl/UidText.v) ---- *)
+let run_uidparse payload =
+  match payload with
+  | [A b] -> (match parse_uid (str_of_atom b) with Some (t, i) -> L [A "ok"; A (atom_of_str t); A (atom_of_str i)] | None -> L [A "err"])
+  | _ -> failwith "uidparse payload"
+
 (* ---- coerce: schema-guided coercion of one value along one declared type (Impl/Coerce.v) ---- *)
 let run_coerce payload =
   match payload with
@@ -933,6 +939,7 @@ let run_vverdict payload =
 let run_case kind payload =
   match kind with
   | "vverdict" -> run_vverdict payload
+  | "uidparse" -> run_uidparse payload
   | "conform" -> run_conform payload
   | "ejsonschema" -> run_ejsonschema payload
   | "coerce" -> run_coerce payload
